@@ -81,12 +81,14 @@ theorem string_ofList_eq (a : String) (cs : List Char) :
   apply String.toList_injective
   simp [String.toList_append, String.toList_ofList]
 
+theorem fmtAsset_str (s : String) : fmtAsset (some (.str s)) = s.toList := rfl
+
 /-- v2, amount given as a decimal *string*: passed through untouched, any magnitude. -/
 theorem varV2_monetary_string (a : String) (n : Int) :
     varV2 (.obj [("asset", .str a), ("amount", .str (showIntS n))]) = some (a ++ " " ++ showIntS n) := by
   obtain ⟨h1, h2⟩ := lookup_amount_asset (.str a) (.str (showIntS n))
   unfold varV2
-  simp only [h1, h2, fmtAsset, goFmt]
+  simp only [h1, h2, fmtAsset_str]
   rw [string_ofList_eq]
   simp [showIntS, String.toList_ofList]
 
@@ -96,7 +98,7 @@ theorem varV2_monetary_number (a : String) (n : JNum) :
     varV2 (.obj [("asset", .str a), ("amount", .num n)]) = some (a ++ " " ++ showIntS (v2AmountInt n)) := by
   obtain ⟨h1, h2⟩ := lookup_amount_asset (.str a) (.num n)
   unfold varV2
-  simp only [h1, h2, fmtAsset, goFmt, v2NumericAmount]
+  simp only [h1, h2, fmtAsset_str, v2NumericAmount]
   rw [string_ofList_eq]
   rfl
 
